@@ -33,7 +33,7 @@ func ruleCollectPreparesBeforeHandler(r *Report, rule string) {
 	// handler variable: result of the handler maker
 	var handlerCalls []*ast.CallExpr
 	for _, c := range callsIn(fi.Decl.Body) {
-		if id, ok := ast.Unparen(c.Fun).(*ast.Ident); ok && id.Name == "dmHandler" && len(c.Args) == 1 && !isNilIdent(info, c.Args[0]) {
+		if id, ok := ast.Unparen(c.Fun).(*ast.Ident); ok && isMatchHandlerVar(info, id) && len(c.Args) == 1 && !isNilIdent(info, c.Args[0]) {
 			handlerCalls = append(handlerCalls, c)
 		}
 	}
@@ -404,4 +404,14 @@ func ruleVisitorForwardsBoth(r *Report, rule string) {
 		}
 	}
 	r.Ob(rule, pf.Name+"/visits-when-fields-needed", pf.Decl.Pos(), ok, "prepareDocumentMatch visits the doc values with the shared visitor whenever len(neededFields) > 0")
+}
+
+// isMatchHandlerVar: the identifier is a variable of the named type search.DocumentMatchHandler (role by type).
+func isMatchHandlerVar(info *types.Info, id *ast.Ident) bool {
+	v, ok := info.ObjectOf(id).(*types.Var)
+	if !ok {
+		return false
+	}
+	nt := namedOf(v.Type())
+	return nt != nil && nt.Obj().Name() == "DocumentMatchHandler"
 }
